@@ -18,6 +18,7 @@ import (
 	"regexp"
 	"sort"
 	"strings"
+	"sync"
 
 	"ariga.io/atlas/sql/mysql"
 	"ariga.io/atlas/sql/postgres"
@@ -710,7 +711,16 @@ func runC19(e *Env) error {
 	parallel(e.Workers, len(sjobs), func(i int) { c19Skip(e, sjobs[i]) })
 	c19CLI(e)
 	c19Rebuild(e)
-	e.Res.Rule = fmt.Sprintf("(1) filepath.Match vs model: all patterns of length <= %d over an 11-symbol alphabet x 14 names; (2) %d random realms (<=2 schemas, <=3 tables, columns/indexes/fks/checks/views sharing names across kinds) x 1-3 patterns of 1-3 parts (wildcards, classes, escapes, [type=..] selectors with alternatives, ~4%% malformed, ~3%% with 4 parts); (3) %d (schema, edited copy) pairs per run on sqlite/mysql/postgres x skip sets (all 64 subsets of a 6-kind core, then random subsets of all %d kinds); non-trivial = pattern with a meta character / realm non-empty / skip set non-empty; distinct by the whole case", maxL, n, ns, len(all))
+	// (4) the nested clause over the differ model of C02: random catalogue edit sets x random skip lists
+	{
+		var smu sync.Mutex
+		c02Skip(e, pool, func(kind, sig, what, chk string, rep any) {
+			smu.Lock()
+			e.Res.Violate(kind, sig, what, chk, rep)
+			smu.Unlock()
+		}, &smu)
+	}
+	e.Res.Rule = fmt.Sprintf("(1) filepath.Match vs model: all patterns of length <= %d over an 11-symbol alphabet x 14 names; (2) %d random realms (<=2 schemas, <=3 tables, columns/indexes/fks/checks/views sharing names across kinds) x 1-3 patterns of 1-3 parts (wildcards, classes, escapes, [type=..] selectors with alternatives, ~4%% malformed, ~3%% with 4 parts); (3) %d (schema, edited copy) pairs per run on sqlite/mysql/postgres x skip sets (all 64 subsets of a 6-kind core, then random subsets of all %d kinds); (4) random sets of 1-4 catalogue edits (C02) x random skip lists through the three real differs == the edits of the other kinds == model Atlas.Diff.schemaDiffSkip; non-trivial = pattern with a meta character / realm non-empty / skip set non-empty; distinct by the whole case", maxL, n, ns, len(all))
 	return nil
 }
 
